@@ -5,6 +5,7 @@ package rules
 import (
 	"fmt"
 	"go/token"
+	"go/types"
 	"sort"
 
 	"golang.org/x/tools/go/callgraph"
@@ -24,6 +25,10 @@ type Ctx struct {
 
 	ls       *lockset.Analysis
 	initOnly map[*ssa.Function]bool
+	cliTypes map[*types.Named]bool
+	cliFns   map[*ssa.Function]bool
+	srvFns   map[*ssa.Function]bool
+	dispReach map[*ssa.Function]bool
 }
 
 // Locks returns the (cached) lockset analysis.
